@@ -118,6 +118,18 @@ public:
 
   void rollback();
 
+  /**
+   * Returns the current list of definitions, to be restored when the source
+   * text being parsed is finally rejected.
+   */
+  std::vector<FunctorPtr> snapshot() const;
+
+  /**
+   * Restore the definitions as they were when the snapshot has been taken:
+   * replaced ones are put back, new ones are removed.
+   */
+  void restore(const std::vector<FunctorPtr>& saved);
+
   Entry& getDeclaration(unsigned id)
   {
     return _declarations[id];
